@@ -188,8 +188,11 @@ StepCorrected(e) ==
          \* in a chained trimmed store the read-back of r+1 depends on r: compare only rounds
          \* whose predecessor was not reported either
          indep == {r \in TRounds : r \notin rep /\ (sc.chained /\ r > 0 => (r - 1) \notin rep)}
-         A1 == IF \E r \in indep : post[r] # pre[r]
-                 THEN {Alarm("RepairExact", e, "touched-unreported-round")} ELSE {}
+         touched == {r \in indep : post[r] # pre[r]}
+         A1 == IF touched # {}
+                 THEN {Alarm("RepairExact", e, IF \A r \in touched : post[r][1] = "ok"
+                                                 THEN "unreported-round-written-with-valid-beacon"
+                                                 ELSE "unreported-round-damaged")} ELSE {}
          A2 == IF e.returned /\ THonestAhead /\ ~RepairRestored(postc, rep)
                  THEN {Alarm("RepairExact", e, "reported-round-not-restored")} ELSE {}
      IN alarms' = alarms \cup A1 \cup A2
@@ -212,6 +215,13 @@ StepEnd(e) ==
      IN alarms' = alarms \cup A1 \cup A2
   /\ UNCHANGED <<sc, ts, str, info>>
 
+\* the process running the real code died (panic) during the current scenario
+StepCrash(e) ==
+  /\ e.ev = "Crash"
+  /\ alarms' = alarms \cup
+       (IF THonestAhead THEN {Alarm("Converges", e, "process-crashed")} ELSE {Alarm("Crash", e, e.what)})
+  /\ UNCHANGED <<sc, ts, str, info>>
+
 StepTimeout(e) ==
   /\ e.ev = "Timeout"
   /\ alarms' = alarms \cup {Alarm("Inconclusive", e, e.what)}
@@ -221,7 +231,7 @@ TraceNext ==
   /\ l <= Len(TraceLog)
   /\ LET e == TraceLog[l] IN
        \/ StepReset(e) \/ StepOpen(e) \/ StepRecv(e) \/ StepBeforePut(e) \/ StepPut(e) \/ StepStreamEnd(e)
-       \/ StepEnv(e) \/ StepCheck(e) \/ StepCorrected(e) \/ StepEnd(e) \/ StepTimeout(e)
+       \/ StepEnv(e) \/ StepCheck(e) \/ StepCorrected(e) \/ StepEnd(e) \/ StepTimeout(e) \/ StepCrash(e)
   /\ l' = l + 1
   /\ UNCHANGED vars
 
